@@ -427,7 +427,8 @@ def gen_program(rng):
                             "scale": float(rng.choice([1.0, 0.5]) if name in CHANNELS else rng.choice([1.0, 2.0, -1.0]))}
             if measured and NARGS[name] >= 1 and name in ("Dgate", "Xgate", "Zgate", "Rgate", "Sgate") and \
                     rng.random() < 0.5:
-                mm = [x for x in measured if x not in c["m"]]
+                # (mostly feed-forward onto another subsystem; sometimes onto the measured subsystem itself)
+                mm = [x for x in measured if x not in c["m"]] if rng.random() < 0.75 else [x for x in measured if x in c["m"]]
                 if mm:
                     c["mpar"] = {"pos": 0, "mode": int(rng.choice(mm)), "scale": float(rng.choice([1.0, 0.5, -1.0]))}
                     c.pop("sym", None)
@@ -448,6 +449,10 @@ def gen_program(rng):
             cmds.append({"op": "MeasureHomodyne", "p": [float(rng.choice([0.0, 0.7]))], "m": [mm], "dag": False})
             if mm not in measured:
                 measured.append(mm)
+    if n >= 2 and rng.random() < 0.2:
+        # subsystems deleted at the end of the program (Del flags RegRefs that earlier commands hold inactive)
+        for mm in sorted(int(x) for x in rng.choice(n, int(rng.integers(1, n)), replace=False)):
+            cmds.append({"op": "Del", "p": [], "m": [mm], "dag": False})
     return {"n": n, "cmds": cmds}
 
 
@@ -463,6 +468,9 @@ def build(ctx, spec):
             if "mpar" in c:
                 s = c["mpar"]
                 p[s["pos"]] = q[s["mode"]].par * s["scale"]
+            if c["op"] == "Del":
+                ops.Del | q[c["m"][0]]
+                continue
             op = getattr(ops, c["op"])(*p)
             if c.get("dag"):
                 op = op.H
@@ -481,7 +489,7 @@ def program_snapshot(prog):
 
 def is_gaussian_numeric(spec):
     for c in spec["cmds"]:
-        if c["op"] in PHASE_GATES or c["op"] in ("Fock", "MeasureHomodyne") or "sym" in c or "mpar" in c:
+        if c["op"] in PHASE_GATES or c["op"] in ("Fock", "MeasureHomodyne", "Del") or "sym" in c or "mpar" in c:
             return False
         if c["op"] == "MSgate":
             pass
